@@ -495,3 +495,20 @@ Proof.
   - intros [H1 H2] x. split; intros H; [apply zmem_In, H1, H | apply zmem_In, H2, H].
   - intros H. split; intros x Hx; apply zmem_In; now apply H.
 Qed.
+
+(* every obtained handle has its row, and that row obeys the matrix *)
+Lemma handles_sound t hs : handles_okb t hs = true ->
+  forall key svc, In (key, svc) hs -> exists A, In (key, svc, A) t.
+Proof.
+  unfold handles_okb. rewrite forallb_forall. intros H key svc Hin. specialize (H _ Hin). unfold handle_okb in H.
+  apply existsb_exists in H as [[[key' svc'] A] [Hr E]]. cbn [fst snd] in E. apply andb_true_iff in E as [E1 E2].
+  apply Z.eqb_eq in E1. apply Z.eqb_eq in E2. subst. now exists A.
+Qed.
+
+Theorem every_handle_guarded states t hs : matrix_okb states t = true -> handles_okb t hs = true ->
+  forall key svc k, In (key, svc) hs -> kind_of svc = Some k ->
+  exists A, In (key, svc, A) t /\ forall s, In s states -> (In s A <-> spec k s = true).
+Proof.
+  intros HM HH key svc k Hin Hk. destruct (handles_sound t hs HH key svc Hin) as [A HA]. exists A. split; [exact HA|].
+  intros s Hs. exact (matrix_sound states t HM key svc A k HA Hk s Hs).
+Qed.
